@@ -12,8 +12,11 @@ import (
 func genCtx(g *simrt.Tape, cs *CallSc) {
 	switch v := g.Draw(20); {
 	case v < 9:
-	case v < 15:
+	case v < 13:
 		cs.Ctx = "cancel"
+		cs.CancelYields = g.Draw(14)
+	case v < 15:
+		cs.Ctx = "expire"
 		cs.CancelYields = g.Draw(14)
 	case v < 19:
 		cs.Ctx = "timeout"
@@ -97,8 +100,10 @@ func c10ObserveFloor(tier string) []*ClientSc {
 	for _, bh := range c10Behavs {
 		for _, kind := range []string{"request", "batch"} {
 			for k := 1; k <= 14; k++ {
-				out = append(out, &ClientSc{Prop: "C10", Enforce: true, Behav: bh, FinalClose: true,
-					Callers: []CallerSc{{Calls: []CallSc{{Kind: kind, N: 2, Ctx: "observe", ObserveK: k}, {Kind: "request"}, {Kind: kind, N: 2}}}}})
+				for _, cx := range []string{"observe", "observe-deadline"} {
+					out = append(out, &ClientSc{Prop: "C10", Enforce: true, Behav: bh, FinalClose: true,
+						Callers: []CallerSc{{Calls: []CallSc{{Kind: kind, N: 2, Ctx: cx, ObserveK: k}, {Kind: "request"}, {Kind: kind, N: 2}}}}})
+				}
 			}
 		}
 	}
